@@ -52,7 +52,7 @@ theorem C06_parameterized_parent (a : MemberAttrs) (ty : TypePath) :
   simp only [MemberAttrs.parameterizedParentAttr, MemberAttrs.project]
   rw [findDedicatedOrDefault_filter a.parentAttrs (·.childFields.isSome) (·.containerTy) ty]
 
-theorem any_filter' {α} (xs : List α) (p q : α → Bool) : (xs.filter p).any q = xs.any (fun x => p x && q x) := by
+theorem any_filter_and {α} (xs : List α) (p q : α → Bool) : (xs.filter p).any q = xs.any (fun x => p x && q x) := by
   induction xs with
   | nil => rfl
   | cons x xs ih =>
@@ -60,7 +60,7 @@ theorem any_filter' {α} (xs : List α) (p q : α → Bool) : (xs.filter p).any 
     cases hp : p x <;> simp [ih]
 
 theorem C06_has_parent (a : MemberAttrs) (ty : TypePath) : (a.project ty).hasParentAttr ty = a.hasParentAttr ty := by
-  simp only [MemberAttrs.hasParentAttr, MemberAttrs.project, any_filter']
+  simp only [MemberAttrs.hasParentAttr, MemberAttrs.project, any_filter_and]
   congr 1
   funext x
   unfold relevantTo
@@ -68,13 +68,13 @@ theorem C06_has_parent (a : MemberAttrs) (ty : TypePath) : (a.project ty).hasPar
 
 theorem C06_has_parameterless_parent (a : MemberAttrs) (ty : TypePath) :
     (a.project ty).hasParameterlessParentAttr ty = a.hasParameterlessParentAttr ty := by
-  simp only [MemberAttrs.hasParameterlessParentAttr, MemberAttrs.project, any_filter']
+  simp only [MemberAttrs.hasParameterlessParentAttr, MemberAttrs.project, any_filter_and]
   congr 1
   funext x
   unfold relevantTo
   cases x.childFields.isNone <;> cases x.containerTy.isNone <;> cases isSomeEq x.containerTy ty <;> rfl
 
-theorem filter_filter_comm' {α} (xs : List α) (p q : α → Bool) : (xs.filter p).filter q = (xs.filter q).filter p := by
+theorem filter_filter_swap {α} (xs : List α) (p q : α → Bool) : (xs.filter p).filter q = (xs.filter q).filter p := by
   simp only [List.filter_filter]
   congr 1
   funext x
@@ -83,7 +83,7 @@ theorem filter_filter_comm' {α} (xs : List α) (p q : α → Bool) : (xs.filter
 theorem C06_field_attr (a : MemberAttrs) (ty : TypePath) (k : Kind) (f : Bool) :
     (a.project ty).fieldAttr k f ty = a.fieldAttr k f ty := by
   simp only [MemberAttrs.fieldAttr, MemberAttrs.iterForKind, MemberAttrs.project]
-  rw [filter_filter_comm']
+  rw [filter_filter_swap]
   rw [findDedicatedOrDefault_filter (a.attrs.filter fun x => x.fallible == f && x.appl.get k) (fun _ => true) (·.attr.containerTy) ty]
 
 /-- C06-1 (member instructions): the instruction that takes effect for counterpart `ty` is the same before and after
